@@ -56,6 +56,7 @@ type Val struct {
 	Fields []*Val // struct aggregate, by field index
 	Clo    *Closure
 	Iter   *MapIter
+	Guard  *Term // the lock (reference) that protects this map value, if it was read from a guarded field
 }
 
 func scalar(t Term, typ types.Type) *Val { return &Val{T: t, Typ: typ} }
